@@ -361,7 +361,8 @@ fn parse_post_operators(
                 } else if p.at_ahead(1, TokenSet::new([TokenKind::Try])) {
                     let propagate = cm.precede(p);
                     p.bump();
-                    p.bump();
+                    // (`expect` and not `bump`, because there might be trivia between the dot and `try`)
+                    p.expect(TokenKind::Try);
                     cm = propagate.complete(p, NodeKind::PropagateExpr);
                 } else {
                     let path = cm.precede(p);
